@@ -335,7 +335,12 @@ func (k Keeper) ConvertGasFeesToUsdc(ctx sdk.Context, baseCurrency string, addre
 			continue
 		}
 
-		tokenOutAmount, err := k.amm.InternalSwapExactAmountIn(ctx, address, address, pool, tokenIn, baseCurrency, math.ZeroInt(), math.LegacyZeroDec())
+		// swap on a cache context so that a failed conversion leaves nothing behind
+		cacheCtx, write := ctx.CacheContext()
+		tokenOutAmount, err := k.amm.InternalSwapExactAmountIn(cacheCtx, address, address, pool, tokenIn, baseCurrency, math.ZeroInt(), math.LegacyZeroDec())
+		if err == nil {
+			write()
+		}
 		if err != nil {
 			// Continue as we can swap it when this amount is higher
 			if err == ammtypes.ErrTokenOutAmountZero {
@@ -349,7 +354,10 @@ func (k Keeper) ConvertGasFeesToUsdc(ctx sdk.Context, baseCurrency string, addre
 				})
 				continue
 			}
-			return sdk.Coins{}, err
+			// e.g. the oracle price of the fee denom is missing or expired: keep the fees and
+			// retry in a later block, block processing must not fail
+			ctx.Logger().Error("Failed to convert fees to usdc for denom: "+tokenIn.Denom, "error", err)
+			continue
 		}
 
 		// Swapped USDC coin
